@@ -94,6 +94,9 @@ Proof.
   destruct e; try (eapply Hmk; [|exact H]; first [apply apply_all_reach; try apply filter_reach; exact Hss|apply filter_reach; exact Hss]).
   - (* E2End *) destruct (apply_all c (WExecEnd i ok) ss) eqn:Ea; [discriminate|]. injection H as <-. cbn [pss].
     rewrite <- Ea. apply apply_all_reach. exact Hss.
+  - (* E2Refused *)
+    destruct (apply_all c (WExecRefused i) ss ++ apply_all c (WCreateFail i) ss) eqn:Ea; [discriminate|].
+    injection H as <-. cbn [pss]. rewrite <- Ea. apply Forall_app. split; apply apply_all_reach; exact Hss.
   - (* E2SigCall *) injection H as <-. exact Hss.
 Qed.
 
